@@ -278,8 +278,12 @@ impl CodeFormatter {
                     .spc_if_next()
                     .fmt(failure_message);
             }
-            Token::Braces { block, .. } | Token::Config(block) => {
+            Token::Braces { block, .. } => {
+                // (the trivia in front of the opening brace is the trivia in front of the token, which was handled already)
                 self.format_block(block);
+            }
+            Token::Config(block) => {
+                self.format_block_with_comments(block);
             }
             Token::ConfigPair { key, eq, value } => {
                 self.push(&key.data)
@@ -476,6 +480,26 @@ impl CodeFormatter {
         }
     }
 
+    /// Formats a block that comes after something else on the same line (e.g. '.loop 3 {'). Comments between that and the
+    /// opening brace are kept in front of the brace.
+    fn format_block_with_comments(&mut self, block: &Block) {
+        if let Some(trivia) = &block.lparen.trivia {
+            for triv in &trivia.data {
+                match triv {
+                    Trivia::CStyle(comment) => {
+                        self.push_type(ChunkType::Comment, comment);
+                    }
+                    Trivia::CppStyle(comment) => {
+                        // The rest of the line is a comment, so the brace goes to the next line
+                        self.push_type(ChunkType::Comment, comment).push("\n");
+                    }
+                    Trivia::Whitespace(_) | Trivia::NewLine => (),
+                }
+            }
+        }
+        self.format_block(block);
+    }
+
     fn format_block(&mut self, block: &Block) {
         match self.options.braces.position {
             BracePosition::SameLine => self.push(&block.lparen.data).push("\n"),
@@ -623,7 +647,7 @@ basic_format!(&TextEncoding);
 
 impl Formattable for &Block {
     fn format(&self, formatter: &mut CodeFormatter) {
-        formatter.format_block(self);
+        formatter.format_block_with_comments(self);
     }
 }
 
